@@ -192,6 +192,8 @@ Proof.
   - intros s [H HU] Ho Hcl Hx. split; [apply inv12345_exhaust; assumption | apply invU_flags_same; exact HU].
   - intros s [H HU]. split; [apply inv12345_want; exact H|]. eapply invU_same; [exact HU | reflexivity ..].
   - intros s [H HU] Hp. split; [apply inv12345_close_try; assumption | apply invU_vacuous; right; reflexivity].
+  - intros s b s1 [H HU] Hnj Hb Hph Hsh. split; [eapply inv12345_refuse; eauto | apply invU_vacuous; left; reflexivity].
+  - intros s b s1 [H HU] Hnj Hb Hph Hsh. split; [eapply inv12345_refuse; eauto | apply invU_vacuous; left; reflexivity].
   - intros s r [H HU] Hp. split; [eapply inv12345_close_drain; eassumption | apply invU_vacuous; right; reflexivity].
   - intros s j [H HU] Hw Ht Hst. split; [apply inv12345_timeout; assumption | apply invU_vacuous; left; reflexivity].
   - (* yield *)
